@@ -76,8 +76,20 @@ def run(ctx):
         raise AnalysisError("CompositeFeatureObserver.initialize_features/_set_column_names vanished")
 
     def loops(fi):
+        """[(iterable, target)] of the first two loops, with the outer loop's
+        variable spelled `$v` so that the comparison between the two methods
+        does not depend on how each of them names it"""
+        import re as _re
+
         fs = sorted([n for n in own_nodes(fi.node) if isinstance(n, ast.For)], key=source_pos(fi.node))
-        return [(ast.unparse(n.iter), ast.unparse(n.target)) for n in fs[:2]]
+        out = [(ast.unparse(n.iter), ast.unparse(n.target)) for n in fs[:2]]
+        if len(out) == 2 and isinstance(fs[0].target, ast.Name):
+            v = fs[0].target.id
+            pat = r"(?<![A-Za-z0-9_])" + _re.escape(v) + r"(?![A-Za-z0-9_])"
+            out = [(out[0][0], "$v"), (_re.sub(pat, "$v", out[1][0]), "$t")]
+        elif out:
+            out = [(o[0], "$t") for o in out]
+        return out
 
     # component arrays stored on the composite (in any container attribute,
     # filled anywhere but inside initialize_features) go stale as soon as a
@@ -344,8 +356,10 @@ def _guards_of(ctx, lc, cls, m, node, _depth=0):
         if isinstance(cur, ast.If) and child in cur.body:
             out.append(_expand_flags(ctx, lc, cls, m, cur.test))
         elif isinstance(cur, ast.If) and child in cur.orelse:
-            # else-branch of an if/elif chain: nothing positive is known
-            pass
+            # else-branch: the negation of the test holds (`if not flag: ... else: <here>`)
+            t = cur.test
+            if isinstance(t, ast.UnaryOp) and isinstance(t.op, ast.Not):
+                out.append(_expand_flags(ctx, lc, cls, m, t.operand))
         elif isinstance(cur, ast.match_case) and cur.guard is not None:
             out.append(_expand_flags(ctx, lc, cls, m, cur.guard))
         child, cur = cur, m.module.parents.get(cur)
